@@ -20,7 +20,7 @@ import (
 // ---- store level: the C02 history machinery with a high share of shared subscriptions ----
 
 func TestC11Store(t *testing.T) {
-	ev.SetRule("C11", "store: rapid histories of Subscribe/Unsubscribe/UnsubscribeAll where ~1/4 of the subscriptions are shared (groups g1,g2; one client in several groups on one filter; several members per group) against map[client]map[fullFilter]; shared and non-shared lookups, by-client iteration and counters compared after every op, all 84 topics after the last op. broker: 2-4 v5 clients join/leave groups (SUBSCRIBE, UNSUBSCRIBE, DISCONNECT with expiry 0, clean take-over, TerminateSession) or go offline with a persistent session; every subscription carries a unique subscription identifier so each received copy is attributable; after all publishes offline members are drained; per message and (group,filter) with >=1 member exactly one copy over the group's members, at min QoS, never to a session that had left; non-shared copies per the C01 model; no retained replay on a shared SUBSCRIBE. Non-trivial: a leave followed by a publish matching the leaver's former group while another member remains; distinct by scenario digest.")
+	ev.SetRule("C11", "store: rapid histories of Subscribe/Unsubscribe/UnsubscribeAll where ~1/4 of the subscriptions are shared (groups g1,g2; one client in several groups on one filter; several members per group) against map[client]map[fullFilter]; shared and non-shared lookups, by-client iteration and counters compared after every op, all 84 topics after the last op. broker: 2-4 v5 clients join/leave groups (SUBSCRIBE, UNSUBSCRIBE, DISCONNECT with expiry 0, clean take-over, TerminateSession, elapse of a 1 s session expiry interval set at DISCONNECT - waited out in real time plus a 400 ms margin, well before the broker's 20 s sweeper runs) or go offline with a persistent session; every subscription carries a unique subscription identifier so each received copy is attributable; after all publishes offline members are drained; per message and (group,filter) with >=1 member exactly one copy over the group's members, at min QoS, never to a session that had left; non-shared copies per the C01 model; no retained replay on a shared SUBSCRIBE. Non-trivial: a leave followed by a publish matching the leaver's former group while another member remains; distinct by scenario digest.")
 	ev.RunN(t, "C11", 3, func(t *rapid.T) c02Scen {
 		s := c02Scen{Backend: "mem", Shared: true}
 		s.Ops = genSubOps(t, true, 40)
@@ -42,7 +42,7 @@ type c11Op struct {
 	Group  string `json:"g,omitempty"`
 	Filter string `json:"f,omitempty"`
 	QoS    byte   `json:"q,omitempty"`
-	How    string `json:"how,omitempty"` // drop: disconnect0 | takeover_clean | terminate | terminate_offline
+	How    string `json:"how,omitempty"` // drop: disconnect0 | takeover_clean | terminate | terminate_offline | expire
 	Topic  string `json:"t,omitempty"`
 }
 
@@ -57,6 +57,11 @@ var c11Topics = []string{"t", "t/x", "u/x", "$x/a"}
 
 func genC11(t *rapid.T) c11Scen {
 	s := c11Scen{Mode: rapid.SampledFrom([]string{"overlap", "onlyonce"}).Draw(t, "mode"), Clients: rapid.IntRange(2, 4).Draw(t, "nclients")}
+	// leaving by expiry costs 1.4 s of real time per op: allowed in a third of the scenarios, at most twice
+	expireLeft := 0
+	if rapid.IntRange(0, 2).Draw(t, "allow_expire") == 0 {
+		expireLeft = 2
+	}
 	n := rapid.IntRange(4, 24).Draw(t, "nops")
 	for i := 0; i < n; i++ {
 		cl := rapid.IntRange(0, s.Clients-1).Draw(t, "client")
@@ -70,7 +75,15 @@ func genC11(t *rapid.T) c11Scen {
 		case k == 9:
 			s.Ops = append(s.Ops, c11Op{Op: "subns", Client: cl, Filter: rapid.SampledFrom(c11Filters).Draw(t, "filter"), QoS: byte(rapid.IntRange(0, 2).Draw(t, "qos"))})
 		case k <= 11:
-			s.Ops = append(s.Ops, c11Op{Op: "drop", Client: cl, How: rapid.SampledFrom([]string{"disconnect0", "takeover_clean", "terminate", "terminate_offline"}).Draw(t, "how")})
+			how := rapid.SampledFrom([]string{"disconnect0", "takeover_clean", "terminate", "terminate_offline", "expire"}).Draw(t, "how")
+			if how == "expire" {
+				if expireLeft == 0 {
+					how = "terminate_offline"
+				} else {
+					expireLeft--
+				}
+			}
+			s.Ops = append(s.Ops, c11Op{Op: "drop", Client: cl, How: how})
 		case k == 12:
 			s.Ops = append(s.Ops, c11Op{Op: "offline", Client: cl})
 		default:
@@ -295,6 +308,27 @@ func runC11(s c11Scen, c *ev.Case) *ev.Violation {
 				}
 				if v := connect(op.Client, true); v != nil {
 					return v
+				}
+			case "expire":
+				// the session ends by the elapse of its expiry interval (1 s, set at DISCONNECT), measured from the end
+				// of its last connection; the broker's 20 s sweeper has not run yet when the next publish arrives
+				if online[op.Client] {
+					if v := quiesce(b, cl); v != nil {
+						return v
+					}
+					_ = cl.Send(&mw.Packet{Type: mw.DISCONNECT, Props: &mw.Props{SessionExpiry: u32p(1)}})
+					cl.Kill()
+					if !waitClientGone(b, clientName(op.Client)) {
+						return harnessErr("client %d still registered 5 s after its socket was closed", op.Client)
+					}
+					online[op.Client] = false
+					// the connection ended before this instant: 1 s + margin later the interval has certainly elapsed
+					time.Sleep(time.Second + 400*time.Millisecond)
+					markLost(op.Client)
+				} else {
+					// already offline with expiry 1000 s: nothing can make that elapse inside a case
+					c.Count("skipped_ops", 1)
+					continue
 				}
 			case "terminate", "terminate_offline":
 				if op.How == "terminate_offline" && online[op.Client] {
